@@ -1473,17 +1473,31 @@ fn eval_call(
                     &stmts,
                 )
                     .context(EvalFuncCallFailed{
-                        func_name,
+                        func_name: func_name.clone(),
                         call_loc: (*line, *col),
                     })?;
+
+                // A `break` or `continue` that reaches the end of the function
+                // is an error at that statement, inside this call.
+                let new_stray_err = |source, (esc_line, esc_col): Location| {
+                    Err(Error::EvalFuncCallFailed{
+                        source: Box::new(Error::AtLoc{
+                            source: Box::new(source),
+                            line: esc_line,
+                            col: esc_col,
+                        }),
+                        func_name: func_name.clone(),
+                        call_loc: (*line, *col),
+                    })
+                };
 
                 match v {
                     Escape::None =>
                         value::new_null(),
-                    Escape::Break{..} =>
-                        return Err(Error::BreakOutsideLoop),
-                    Escape::Continue{..} =>
-                        return Err(Error::ContinueOutsideLoop),
+                    Escape::Break{loc} =>
+                        return new_stray_err(Error::BreakOutsideLoop, loc),
+                    Escape::Continue{loc} =>
+                        return new_stray_err(Error::ContinueOutsideLoop, loc),
                     Escape::Return{value, ..} =>
                         value,
                 }
